@@ -2,7 +2,9 @@ package main
 
 // The program universe of C05: atoms (one action, or a small group of actions
 // whose names interact) over the type universe Sig(d) and the identifier
-// hygiene set, rendered as IDL text.
+// hygiene set, rendered as IDL text; and the object family (objects.go):
+// actions with object-typed positions (an interface declared in the same
+// package as parameter, result or signal payload).
 
 import (
 	"fmt"
@@ -33,6 +35,15 @@ type atom struct {
 	hygiene bool
 	decls   []string // struct / enum declarations needed
 	itfName string   // "" = default interface
+	// object family: the atoms declaring what this atom refers to (the method
+	// value() of the interfaces it names, of its own interface when it refers to
+	// itself); they are rendered, generated and assembled together with it
+	needs  []*atom
+	object bool   // member of the object family (assembled into a package of its own)
+	group  string // object family: the position class, for the attribution of a failure common to a whole group
+	// withheld: the unit fails on the unchanged tree and awaits a decision; it is
+	// enumerated only when VERIF_C05_PENDING=1 (see objects.go)
+	pending string
 }
 
 var scalars = []string{"bool", "int8", "uint8", "int16", "uint16", "int32", "uint32", "int64", "uint64", "float32", "float64", "str", "any"}
@@ -346,12 +357,16 @@ func buildAtoms(tier string) []*atom {
 		as = append(as, &atom{id: id("i"), class: "interface-name:" + nm, hygiene: true, itfName: nm,
 			actions: []action{{kind: "method", name: "im", params: one, ret: "int32"}, {kind: "signal", name: "is", params: one}}})
 	}
+	as = append(as, objectAtoms(tier, id)...)
 	return as
 }
 
 // renderIDL renders atoms as one IDL package: declarations, then one
-// interface per interface name.
+// interface per interface name (in the order of first appearance, except that
+// the object family's interface Early comes first and Late last), the atoms an
+// atom needs included.
 func renderIDL(pkgName string, atoms []*atom) string {
+	atoms = withNeeds(atoms)
 	var sb strings.Builder
 	sb.WriteString("package " + pkgName + "\n")
 	need := map[string]bool{}
@@ -387,6 +402,7 @@ func renderIDL(pkgName string, atoms []*atom) string {
 		}
 		byItf[n] = append(byItf[n], a)
 	}
+	sort.SliceStable(itfs, func(i, j int) bool { return itfRank[itfs[i]] < itfRank[itfs[j]] })
 	for _, n := range itfs {
 		sb.WriteString("interface " + n + "\n")
 		for _, a := range byItf[n] {
